@@ -103,9 +103,68 @@ def C19():
                 outside=["windows larger than 3x3", "compressed / 16 bpp input on this path (C08)", "allocator layout UB of transmute_vec"])
 
 
-PROPS = {"C13": C13, "C14": C14, "C19": C19}
+RLE32_TOTAL = [("1x1_n3_a", True), ("2x1_n4_b", True), ("1x2_n4_a", False), ("2x2_n6_b", False)]
+DECOMP = [("raw32_2x2_n16", True), ("raw32_2x2_n15", True), ("raw32_2x2_n17", True), ("raw32_1x1_n0", True), ("raw32_0x2_n0", False),
+          ("raw16_2x2_n8", True), ("raw16_2x2_n7", True), ("raw16_2x2_n0", False), ("raw16_1x3_n9", False), ("raw16_0x0_n2", True),
+          ("rle32_disp_0x1_n3", True)]
 
-MIR_PROPS = ["C13", "C14"]
+
+def C08():
+    jobs = [Kani("c08_rle32_twin", "vacuity twin", expect="fail", fail_desc="twin reached", timeout=400, mem_gb=6),
+            Kani("c08_rle32_total_zero_area", "rle_32_decompress on zero-area images (w=0 or h=0), 3 symbolic bytes: no panic",
+                 bounds={"w,h": "one of them 0, the other <= 2", "input": 3}, symbolic=["input", "w", "h"], functions=["codec::rle::rle_32_decompress", "codec::rle::process_plane"], timeout=400, mem_gb=6)]
+    for n, q in RLE32_TOTAL:
+        nb = int(n.split("_n")[1].split("_")[0])
+        jobs.append(Kani("c08_plane_total_" + n, "process_plane (one planar-RLE colour plane, slice offset as rle_32_decompress passes it) on every input of %d bytes for a %s image: Ok or Err, no panic, no index outside the buffers" % (nb, n.split("_")[0]),
+                         tiers=("quick", "thorough") if q else ("thorough",), bounds={"image": n.split("_")[0], "input_bytes": nb, "plane": n[-1], "unwind": nb + 2},
+                         symbolic=["input bytes"], functions=["codec::rle::process_plane"], timeout=3000 if "2x2" in n else 900, mem_gb=28 if "2x2" in n else 10))
+    jobs.append(Kani("c08_rle32_disp_2x2_tpl", "BitmapEvent::decompress, 32 bpp compressed 2x2, raw2/raw2 segmentation with symbolic values: Ok with exactly 16 bytes", bounds={"image": "2x2"},
+                     symbolic=["16 value bytes"], functions=["core::event::BitmapEvent::decompress", "codec::rle::rle_32_decompress"], timeout=600, mem_gb=8))
+    jobs.append(Kani("c08_rle32_total_1x1_n3", "rle_32_decompress on every 3-byte input for a 1x1 image: header byte checked, truncation is an error, no panic",
+                     bounds={"image": "1x1", "input_bytes": 3}, symbolic=["input bytes"], functions=["codec::rle::rle_32_decompress", "codec::rle::process_plane"], timeout=900, mem_gb=12, tiers=("thorough",)))
+    for n, q in DECOMP:
+        jobs.append(Kani("c08_" + n, "BitmapEvent::decompress (%s): Ok(v) => v.len() == width*height*4; no panic" % n,
+                         tiers=("quick", "thorough") if q else ("thorough",), bounds={"case": n}, symbolic=["data bytes", "dest rectangle"],
+                         functions=["core::event::BitmapEvent::decompress", "codec::rle::rgb565torgb32", "codec::rle::rle_32_decompress"], timeout=900, mem_gb=8))
+    jobs.append(MirJob("c08_mir_unsupported_depth", "BitmapEvent::decompress: every path through the `otherwise` edge of the switch on bpp (any depth other than the listed ones) allocates nothing, calls no decoder and returns Err; the listed depths are exactly {16, 32}",
+                       mirjobs.decompress_dispatch))
+    return Prop("C08", [("codec/rle.rs", "codec.rs"), ("core/event.rs", "event.rs")], jobs, lowerings=["L2"],
+                assumptions=[S2, S6, DEV, "L2 light error payloads",
+                             "composition: rle_32_decompress = format-byte check + size guards + four process_plane calls on output[3..],[2..],[1..],[0..] sharing one cursor (shape checked by c08_mir_rle32_shape); panic-freedom of one call for every cursor content gives panic-freedom of the sequence"], stubs=[S2],
+                text="Bounded model checking of the real BitmapEvent::decompress, rle_32_decompress and process_plane: every data string of the stated length for images up to 3x2 (totality, exact output size, no out-of-bounds index), every unsupported depth. A decoder's panics sit at run lengths that cross a row or buffer end - single bytes the solver finds at once.",
+                note="Interleaved 16 bpp RLE (rle_16_decompress) is NOT covered: CBMC does not finish even a 1x1 image with 2 input bytes (DESIGN G3). Bounds: images <= 3x2, inputs <= 9 bytes; allocation proportionality is argued from the size expressions (w*h*4, w*h*2), not observed.",
+                technique="Kani/CBMC bounded model checking (SAT) of the bitmap decoders over all inputs of bounded length",
+                design_ref="DESIGN.md §4 C08",
+                outside=["rle_16_decompress (interleaved RLE)", "images larger than 3x2", "inputs longer than 9 bytes", "u16 overflow region of the raw 16 bpp index arithmetic (w*h*2 > 65535) beyond the witness"])
+
+
+def C09():
+    jobs = [
+        Kani("c09_rgb565_all_colours", "rgb565torgb32: all 65536 colours widen to B,G,R,0xFF with exact round-half-up per channel", bounds={"colours": "all u16"}, symbolic=["v: u16"],
+             functions=["codec::rle::rgb565torgb32"], timeout=400, mem_gb=4),
+        Kani("c09_rgb565_layout_2x2", "rgb565torgb32 keeps pixel order for a 2x2 image", bounds={"image": "2x2"}, symbolic=["4 pixels"], functions=["codec::rle::rgb565torgb32"], timeout=400, mem_gb=4),
+        Kani("c09_raw32_identity_2x2", "raw 32 bpp 2x2 is returned byte-identical", bounds={"image": "2x2"}, symbolic=["16 bytes"], functions=["core::event::BitmapEvent::decompress"], timeout=400, mem_gb=4),
+        Kani("c09_raw16_flip_2x2", "raw 16 bpp 2x2: wire rows bottom-up become rows top-down, each pixel widened exactly", bounds={"image": "2x2"}, symbolic=["8 bytes"],
+             functions=["core::event::BitmapEvent::decompress", "codec::rle::rgb565torgb32"], timeout=400, mem_gb=4),
+    ]
+    for n, q, seg in (("2x2_raw", True, "raw2 / raw2"), ("2x2_split", True, "raw1,raw1 / raw2"), ("4x2_rawrun", True, "raw1+run3 / raw1+run3"),
+                      ("3x2_run0", False, "run3 (of 0) / raw3 deltas"), ("4x3_mixed", False, "raw4 / run4 / raw1+run3"), ("16x1_long", True, "long run form 16"),
+                      ("18x2_long", False, "raw1 + long run 17 / long run 18")):
+        jobs.append(Kani("c09_rle32_exact_" + n, "planar RLE, %s image, segmentation per plane {%s}, symbolic value bytes in all four planes: output equals the clean-room MS-RDPEGDI reference decoder, rows top-down, BGRA" % (n.split("_")[0], seg),
+                         tiers=("quick", "thorough") if q else ("thorough",), bounds={"image": n.split("_")[0], "segmentation": seg}, symbolic=["every raw/delta byte of the four planes"],
+                         functions=["codec::rle::rle_32_decompress", "codec::rle::process_plane"], timeout=900, mem_gb=8))
+    return Prop("C09", [("codec/rle.rs", "codec.rs"), ("core/event.rs", "event.rs")], jobs, lowerings=["L2"],
+                assumptions=[S6, DEV, "planar streams are built from a concrete segmentation (control bytes) per instance with symbolic value bytes; the reference decoder in the harness (clean-room from MS-RDPEGDI 3.1.9) defines the expected image"],
+                text="Pixel exactness decided by the solver against clean-room references: 5-6-5 widening for all 65536 colours, raw 16/32 bpp row order for 2x2, planar RLE for every conformant stream of the stated lengths at up to 2x2.",
+                note="Interleaved 16 bpp RLE is not covered (G3). Planar RLE: seven segmentations (raw, split raw, raw+run, zero run, delta rows, both long-run forms) on images up to 18x2; the choice among segmentations is enumerated, not symbolic.",
+                technique="Kani/CBMC bounded model checking (SAT), differential against reference decoders in the harness",
+                design_ref="DESIGN.md §4 C09",
+                outside=["interleaved RLE order types", "segmentations other than the seven listed", "images larger than 18x2"])
+
+
+PROPS = {"C08": C08, "C09": C09, "C13": C13, "C14": C14, "C19": C19}
+
+MIR_PROPS = ["C08", "C13", "C14"]
 
 _TODO = "not claimed yet: machinery for this property is still being built (see DESIGN.md §4 for the plan)"
 NOT_APPLICABLE = {
@@ -115,5 +174,5 @@ NOT_APPLICABLE = {
     "C15": "CHALLENGE -> AUTHENTICATE needs read_target_info (size idiom) and a 25-field emitter with three to_vec calls; neither is executable by the solver-based engines here",
     "C20": "thread interleavings, select(2) and OpenSSL record buffering are concurrency + FFI; Kani does not model them and no sequential kernel implies the property",
 }
-for _p in ["C01", "C02", "C04", "C05", "C06", "C07", "C08", "C09", "C12", "C16", "C17", "C18"]:
+for _p in ["C01", "C02", "C04", "C05", "C06", "C07", "C12", "C16", "C17", "C18"]:
     NOT_APPLICABLE.setdefault(_p, _TODO)
